@@ -43,7 +43,7 @@ def base(level):
     )
     files, info = product.build_product(spec)
     with harness.Materialised(files, "memory") as prod:
-        ref = harness.flatten(harness.open_tree(prod.url, use_cache=False))
+        _, ref = harness.reference_open(prod.url, use_cache=False)
     names = info["names"]
     roles = {"summary": "summary.txt", "VOL": names["volume_directory"], "LED": names["sar_leader"]}
     for i, n in enumerate(names["sar_imagery"]):
